@@ -552,6 +552,30 @@ Proof.
   destruct (has_type v); reflexivity.
 Qed.
 
+(* the key of each block kind *)
+Lemma kind_key k v :
+  match kind_of k v with
+  | KPairs => k = Str "pattern"
+  | KKeyValue => mem_str k key_value_blocks = true
+  | KProjection => k = Str "projection"
+  | KRepeated => mem_str k REPEATED_KEYS = true
+  | KPoints => k = Str "points"
+  | KConfig => k = Str "config"
+  | _ => True
+  end.
+Proof.
+  unfold kind_of. destruct (hidden_key k); [exact I|].
+  destruct (mem_str k OBJECT_LIST_KEYS && is_list v); [exact I|].
+  destruct (str_eqb_spec k (Str "pattern")); [assumption|].
+  destruct (mem_str k key_value_blocks) eqn:E; [reflexivity|].
+  destruct (str_eqb_spec k (Str "projection")); [assumption|].
+  destruct (mem_str k REPEATED_KEYS) eqn:E2; [reflexivity|].
+  destruct (str_eqb_spec k (Str "points")); [assumption|].
+  destruct (str_eqb_spec k (Str "config")); [assumption|].
+  destruct (has_type v); exact I.
+Qed.
+
+
 (* the keys whose length the printer takes into account are at least the
    simple keywords *)
 Lemma keyword_counts k v : kind_of k v = KKeyword -> counts_for_alignment k v = true.
@@ -616,7 +640,8 @@ Section Main.
   Lemma layout_doc_item c its k v :
     layout_doc (VDict c its) = true -> In (k, v) its ->
     match kind_of k v with
-    | KHidden | KProjection | KRepeated | KConfig => True
+    | KHidden | KProjection | KConfig => True
+    | KRepeated => is_list v = true
     | KChildren => match v with VList l => forallb layout_doc l = true | _ => False end
     | KPairs | KPoints => num_tree v = true
     | KKeyValue => match v with VDict _ kvs => no_comments kvs = true | _ => True end
